@@ -887,6 +887,16 @@ func (s *Sim) expCT() string {
 	return e.Status.CompletionTime.UTC().Format("2006-01-02T15:04:05.000000000")
 }
 
+// StaleCompletedExp reports whether the experiment cache still holds a completed experiment while the stored one has been
+// restarted (is no longer completed).
+func (s *Sim) StaleCompletedExp() bool {
+	e := &experimentsv1beta1.Experiment{}
+	if s.cacheExp == nil || s.store.Get(ctx, types.NamespacedName{Name: ExpName, Namespace: NS}, e) != nil {
+		return false
+	}
+	return s.cacheExp.IsCompleted() && !e.IsCompleted()
+}
+
 // CachedSuggestion returns (spec.requests, status.suggestionCount) of the cached suggestion, or nil.
 func (s *Sim) CachedSuggestion() []int64 {
 	if s.cacheSug == nil {
